@@ -214,6 +214,12 @@ def _l4_md(k: int, m0: bool, m1: bool, m2: bool, m3: bool, c0: bool, c1: bool, c
     return used == k and dec == refu
 
 
+
+def preflight():
+    """FakeRead against real pysam records of the repository's test BAM files, accessor by accessor"""
+    from stubs.validate import validate_fakeread
+    return validate_fakeread(300)
+
 _T = {'quick': 240, 'thorough': 1200}
 LEMMAS = [
     dict(name='L1_blocks_cigar', fn='_l1_blocks', engine='E1', timeout=_T, replay='replay.C15:replay',
